@@ -154,6 +154,7 @@ func ProfileByName(name string) *Profile {
 		p.W[KAct] = 10
 		p.IgnoreCase = 25
 		p.CharAlt = 30
+		p.RuleLabels = true
 		p.Throw = true // Walk handles recovery / throw nodes since fix 0c660c6
 		p.W[KRec], p.W[KThrow] = 3, 3
 		p.NoStaleCtx = true
